@@ -439,6 +439,17 @@ func (w *World) oracleC07(m *simkube.Mutation, ip string, oldF, newF *FipInfo) {
 	} else {
 		unsized = true
 	}
+	if m.By != nil && strings.HasPrefix(m.By.Name, "pool-set~") {
+		// a create-or-update request stores its size before it pre-allocates and reads the Pool object from the API,
+		// not from the lister: it never acts under "no size". It is held to the sizes stored since it started, unless
+		// the Pool object has been deleted meanwhile (then no size is in force).
+		if w.K.Get("pools", "kube-system", pool) == nil {
+			return
+		}
+		max, _ = maxSizeSince(w.M.poolSize[pool], start)
+		unsized = false
+		w.S.Stat("c07.prealloc-judged")
+	}
 	if unsized {
 		return
 	}
@@ -614,7 +625,7 @@ func (w *World) oracleC08Bind(p *PodInfo) {
 		// routable: in some configuration version that may be in force, the IP's pool lists the node's subnet
 		ok := false
 		for _, cs := range w.confVers {
-			if pool := cs[ip]; pool != nil && hasStr(pool.NodeSubnets, nodeSub) {
+			if pool := cs[ip]; pool != nil && w.topo.NodeIn(p.Node, pool.NodeSubnets) {
 				ok = true
 			}
 		}
